@@ -255,6 +255,58 @@ func c14Schemas(thorough bool) (*SPkg, []*Schema) {
 		t.p.Imports = []SImport{{Pkg: b.base}}
 		return []*SPkg{b.base, t.p}
 	})
+	for _, alias := range []string{"c", "n", "s", "ec", "pc", "b", "ref", "spec", "bin", "rpc", "status"} {
+		alias := alias
+		mut("unused import under alias "+alias+" (substring of / equal to a fixed Go import of the generated file)", "", "either", func(t *c14tmpl) []*SPkg {
+			t.p.Imports = []SImport{{Pkg: b.base, Alias: alias}}
+			return []*SPkg{b.base, t.p}
+		})
+		mut("used import under alias "+alias, "", "either", func(t *c14tmpl) []*SPkg {
+			t.p.Imports = []SImport{{Pkg: b.base, Alias: alias}}
+			e, _, _, _ := b.baseDefs()
+			t.m.Fields = append(t.m.Fields, SField{Name: "imp", Tag: 9, Kind: "enum", Ref: e, Via: alias})
+			return []*SPkg{b.base, t.p}
+		})
+	}
+	mut("empty struct", "", "either", func(t *c14tmpl) []*SPkg {
+		t.p.Defs = append(t.p.Defs, &SDef{Name: "Empty", Type: "struct", Pkg: t.p})
+		return nil
+	})
+	mut("empty message", "", "either", func(t *c14tmpl) []*SPkg {
+		t.p.Defs = append(t.p.Defs, &SDef{Name: "Empty", Type: "message", Pkg: t.p})
+		return nil
+	})
+	mut("empty service", "", "either", func(t *c14tmpl) []*SPkg {
+		t.p.Defs = append(t.p.Defs, &SDef{Name: "Empty", Type: "service", Pkg: t.p})
+		return nil
+	})
+	for _, typ := range []string{"service", "message", "struct", "enum"} {
+		typ := typ
+		mut("lower-case "+typ+" name", "", "either", func(t *c14tmpl) []*SPkg {
+			d := &SDef{Name: "lower", Type: typ, Pkg: t.p}
+			switch typ {
+			case "service":
+				d.Methods = []SMethod{{"call", "(Req) Resp"}, {"args", "(q string 1) (r string 1)"}}
+			case "enum":
+				d.Values = []SEnumVal{{"LZERO", "0"}, {"LONE", "1"}}
+			case "struct":
+				d.Fields = []SField{{Name: "x", Kind: "int32"}}
+			default:
+				d.Fields = []SField{{Name: "x", Tag: 1, Kind: "int32"}}
+			}
+			t.p.Defs = append(t.p.Defs, d)
+			return nil
+		})
+	}
+	mut("user message named like a generated request message", "", "either", func(t *c14tmpl) []*SPkg {
+		t.svc.Methods = append(t.svc.Methods, SMethod{"args", "(q string 1) (r string 1)"})
+		t.p.Defs = append(t.p.Defs, &SDef{Name: "SvcArgsRequest", Type: "message", Pkg: t.p, Fields: []SField{{Name: "z", Tag: 1, Kind: "bool"}}})
+		return nil
+	})
+	mut("user message named like a generated client type", "", "either", func(t *c14tmpl) []*SPkg {
+		t.p.Defs = append(t.p.Defs, &SDef{Name: "SvcClient", Type: "message", Pkg: t.p, Fields: []SField{{Name: "z", Tag: 1, Kind: "bool"}}})
+		return nil
+	})
 	mut("missing import", "nowhere", "reject", func(t *c14tmpl) []*SPkg {
 		t.p.Imports = []SImport{{ID: "nowhere"}}
 		return nil
